@@ -168,7 +168,7 @@ func runC15(c *CaseCtx) {
 		// a single small write first: it still fits into whatever segment is the active one after the Merge
 		g.M = run.M
 		run.Tx(TxSpec{Mode: "update", Ops: []Op{{K: "Put", B: u.Buckets[0], Key: u.KVKeys[0], Val: []byte("w")}}}, false)
-		if !run.Reopen() || !run.CheckObs("after-merge-write-reopen") {
+		if !run.CheckObs("after-merge-write") || !run.Reopen() || !run.CheckObs("after-merge-write-reopen") {
 			return
 		}
 	}
